@@ -25,9 +25,9 @@ func init() {
 		},
 		ShardTimeout: func(tier string) int {
 			if tier == "quick" {
-				return 300
+				return 1200
 			}
-			return 3000
+			return 14400
 		},
 		Rule:        "case = (tree shape, flush kind, schedule): a tree of 1..400 entries (1 to >40 dirty nodes, bf 2-4; first persist / incremental persist after edits / persist after deletes; cache none or shared) is flushed through a scheduled Persist double whose Store calls block on gates released by a seeded policy (FIFO, LIFO, random, one straggler held to the very end, hold-until-saturated); oracle on the call/return ledger: at the moment MakeRoot returns no Store may be outstanding and every node reachable from the returned root must be in the durable set; then, for every third case, EVERY node name written by the fault-free run is made to fail once on an identically rebuilt tree (plus a second failure at another name on the first retry for a sample): a Store that returned an error before MakeRoot returned must make MakeRoot fail, the tree must then equal its model and accept an insert, and a clean retry must succeed with every reachable node durable; with a shared cache the same contents are then persisted into a second store with another prefix and every reachable node must be there; non-trivial = >= 3 Store calls AND (completion order differs from call order OR a fault was hit); distinct by (shape, policy, completion order, fault)",
 		Assumptions: []string{"verdicts use the logical sequence counter; the 150us poll only decides which schedule is explored", "run from the -race binary: any race report with a jrhy/mast frame is a violation"},
